@@ -259,6 +259,9 @@ type vfStats struct {
 }
 
 func (s *vfStats) add(k string, n int) {
+	if s == nil {
+		return
+	}
 	if s.m == nil {
 		s.m = map[string]int{}
 	}
@@ -708,6 +711,24 @@ func vfRuleSetYAML(id string) string {
 	return "version: \"1alpha4\"\nrules:\n- id: \"" + id + "\"\n  match:\n    routes:\n      - path: /" + strings.NewReplacer("#", "_", ":", "_").Replace(id) + "\n  execute:\n    - authenticator: a\n"
 }
 
+// vfDoc is one member of the symbol classes "empty" and "invalid".
+type vfDoc struct {
+	Name string
+	Data string
+	JSON bool // a JSON value: served as application/json by the providers that carry a content type
+}
+
+// vfEmptyDocs are contents that hold no YAML document at all: the source exists, but there is no rule set in it
+// (any more) => "emptied", unloaded. For "all-rules-commented-out" the bytes are derived from the version that is
+// loaded (vfEmptyDoc), the Data given here is used when there is none.
+var vfEmptyDocs = []vfDoc{
+	{Name: "zero-bytes", Data: ""},
+	{Name: "whitespace-only", Data: " \n  \n\r\n"},
+	{Name: "banner-comment-only", Data: "# managed by the platform pipeline - do not edit by hand\n"},
+	{Name: "all-rules-commented-out", Data: "# version: \"1alpha4\"\n# rules:\n# - id: x\n#   match:\n#     routes:\n#       - path: /x\n#   execute:\n#     - authenticator: a\n"},
+	{Name: "blank-lines-and-indented-comment", Data: "\n\n  # nothing to see here yet\n\n"},
+}
+
 // vfInvalidDocs are syntactically or structurally invalid rule sets (all rejected by config.ParseRules).
 var vfInvalidDocs = []string{
 	"version: [1\n",                                       // YAML syntax error
@@ -715,6 +736,79 @@ var vfInvalidDocs = []string{
 	"version: \"1alpha4\"\nrulez:\n- id: x\n",             // unknown field
 	"version: \"1alpha4\"\nrules:\n- id: x\n  match: 5\n", // type confusion
 	"rules:\n- id: x\n  match:\n    routes:\n      - path: /x\n  execute:\n    - authenticator: a\n", // version missing
+}
+
+// vfContentlessDocs are further members of the class "invalid": there IS a document, but it defines nothing (what a
+// reader sees of a file that starts with a document marker and a comment header while it is being written, or a
+// type-confused null / empty object) => not a rule set, the previous version stays.
+var vfContentlessDocs = []vfDoc{
+	{Name: "document-marker-only", Data: "---\n"},
+	{Name: "document-marker-no-newline", Data: "---"},
+	{Name: "document-marker-and-comment-header", Data: "---\n# rule set of team a\n# rolled out by the pipeline\n"},
+	{Name: "tilde", Data: "~\n"},
+	{Name: "null", Data: "null\n", JSON: true},
+	{Name: "empty-object", Data: "{}\n", JSON: true},
+	{Name: "truncated-in-first-key", Data: "---\n# rule set of team a\nversi"},
+	{Name: "truncated-after-first-key", Data: "---\n# rule set of team a\nversion:"},
+}
+
+// vfDocOffset rotates the members with the seed of the run (set once by vfInitDocs, before any worker starts).
+var vfDocOffset int
+
+// vfInitDocs records the classification of the members and draws the seed dependent rotation.
+func vfInitDocs(r *core.Run) {
+	vfDocOffset = r.Stream("c18-doc-members").IntN(1 << 16)
+	var e, i []string
+	for _, d := range vfEmptyDocs {
+		e = append(e, d.Name)
+	}
+	for n := range vfInvalidDocs {
+		i = append(i, fmt.Sprintf("basic-%d", n))
+	}
+	for _, d := range vfContentlessDocs {
+		i = append(i, d.Name)
+	}
+	r.Set("doc_members_empty", e)
+	r.Set("doc_members_invalid", i)
+	r.Assume("the documentation speaks of \"empty\" contents only; members of the two classes are classified as the parser of the unchanged tree does: " +
+		"contents without any YAML document (zero bytes, blanks and line breaks, comments only, every rule commented out) = empty => unloaded; " +
+		"a document that defines nothing (`---`, `---` plus comment header, `~`, `null`, `{}`, a valid file cut before or within its first key) = invalid => previous version kept. " +
+		"Whitespace containing a tab is a YAML syntax error for that parser and is not used as an \"empty\" member")
+}
+
+// vfDocSalt makes the choice of the members a function of the sequence (and of what else identifies the case), so
+// that a replay of the stored sequence writes the same bytes.
+func vfDocSalt(seq []int, extra int) int {
+	h := 17 + extra
+	for _, s := range seq {
+		h = h*31 + s + 1
+	}
+	if h < 0 {
+		h = -h
+	}
+	return h % (1 << 20)
+}
+
+// vfEmptyDoc picks the k-th empty member; prev is the valid content the source holds now ("" = none).
+func vfEmptyDoc(k int, prev string, st *vfStats) vfDoc {
+	d := vfEmptyDocs[(vfDocOffset+k)%len(vfEmptyDocs)]
+	if d.Name == "all-rules-commented-out" && prev != "" {
+		d.Data = "# " + strings.ReplaceAll(strings.TrimSuffix(prev, "\n"), "\n", "\n# ") + "\n"
+	}
+	st.add("doc_empty["+d.Name+"]", 1)
+	return d
+}
+
+// vfInvalidDoc picks the k-th invalid member.
+func vfInvalidDoc(k int, st *vfStats) vfDoc {
+	n := (vfDocOffset + k) % (len(vfInvalidDocs) + len(vfContentlessDocs))
+	if n < len(vfInvalidDocs) {
+		st.add(fmt.Sprintf("doc_invalid[basic-%d]", n), 1)
+		return vfDoc{Name: fmt.Sprintf("basic-%d", n), Data: vfInvalidDocs[n]}
+	}
+	d := vfContentlessDocs[n-len(vfInvalidDocs)]
+	st.add("doc_invalid["+d.Name+"]", 1)
+	return d
 }
 
 // ---------------------------------------------------------------------------------------------
